@@ -70,7 +70,7 @@ class Stage:
                     fails.extend(part)
         else:
             fails = self._run_chunk(cases)
-        known_ids = {k['id']: k for k in known if k.get('stage') == self.name}
+        known_ids = {k['id']: k for k in known if self.name in k.get('stages', [])}
         if self.weight:
             total = sum(self.weight(c) for c in cases)
             nontriv = total if nontriv == len(seen) else nontriv
@@ -96,12 +96,18 @@ class Stage:
 
     def replay(self, v):
         case = codec.dec(v['args'])
-        d = self.check(case)
+        try:
+            d = self.check(case)
+        except Exception as ex:
+            d = 'check raised %s' % type(ex).__name__
         return d is None, 'case %r -> %s' % (case, d or 'ok')
 
     def witness_fails(self, k):
         case = codec.dec(k['witness'])
-        return self.check(case) is not None
+        try:
+            return self.check(case) is not None
+        except Exception:
+            return True
 
 
 def _short(case):
